@@ -32,17 +32,20 @@ def gen_world(rng, nprod=None, spaces=None):
         vs = sorted(rng.sample(VERSIONS, rng.choice([1, 2, 2, 3])))
         for v in vs:
             lines = []
+            # the table's own directory: ${PRODUCT_DIR}, or spelled out as ${<NAME>_DIR} (both are replaced by the
+            # directory when the table is loaded: Table.expandEupsVariables)
+            pd = "${PRODUCT_DIR}" if rng.random() < 0.8 else "${%s_DIR}" % name.upper()
             if rng.random() < 0.85:
-                lines.append("envPrepend(PATH, ${PRODUCT_DIR}/bin)")
+                lines.append("envPrepend(PATH, %s/bin)" % pd)
             if rng.random() < 0.5:
-                lines.append("envAppend(LD_LIBRARY_PATH, ${PRODUCT_DIR}/lib)")
+                lines.append("envAppend(LD_LIBRARY_PATH, %s/lib)" % pd)
             if rng.random() < 0.35:
-                lines.append("envPrepend(%s_PATH, ${PRODUCT_DIR}/share, \";\")" % name.upper())
+                lines.append("envPrepend(%s_PATH, %s/share, \";\")" % (name.upper(), pd))
             if rng.random() < 0.3:
                 # a custom-delimited list shared by several products
-                lines.append("%s(XLIST, ${PRODUCT_DIR}/x, \";\")" % rng.choice(["envPrepend", "envAppend"]))
+                lines.append("%s(XLIST, %s/x, \";\")" % (rng.choice(["envPrepend", "envAppend"]), pd))
             if rng.random() < 0.5:
-                lines.append("envSet(%s_HOME, ${PRODUCT_DIR}/home)" % name.upper())
+                lines.append("envSet(%s_HOME, %s/home)" % (name.upper(), pd))
             if rng.random() < 0.3:
                 lines.append("addAlias(run_%s, echo %s %s)" % (name, name, v))
             deps = []
@@ -52,12 +55,16 @@ def gen_world(rng, nprod=None, spaces=None):
                     form = rng.random()
                     kind = "setupRequired" if rng.random() < 0.7 else "setupOptional"
                     dvs = VERSIONS
-                    if form < 0.45:
+                    if form < 0.40:
                         arg = dep
-                    elif form < 0.75:
+                    elif form < 0.65:
                         arg = "%s %s" % (dep, rng.choice(dvs))
-                    elif form < 0.9:
+                    elif form < 0.77:
                         arg = "%s %s [>= %s]" % (dep, rng.choice(dvs), rng.choice(dvs))
+                    elif form < 0.86:
+                        arg = "%s %s %s" % (dep, rng.choice([">=", ">=", ">", "<=", "<"]), rng.choice(dvs))  # bare expression
+                    elif form < 0.93:
+                        arg = "%s -t current" % dep         # by tag (outside the composed model, inside Model/Setup.v)
                     else:
                         arg = "%s -j" % dep
                     deps.append("%s(%s)" % (kind, arg))
